@@ -168,3 +168,30 @@ Proof. reflexivity. Qed.
 (** without the comparison of the tagged cursors the copy could be reached with end < start *)
 Example ex_copy_needs_order : ~ regions_ok (copy_regions 6 5 2).
 Proof. intros H. inversion H as [|r l Hb _]. unfold in_bounds in Hb. cbn in Hb. lia. Qed.
+
+(** * string-cursor-ref: the continuation bytes *)
+
+(** every lead byte has its continuation bytes inside the string (true of every string built from
+    characters by the modelled constructors; NOT true of utf8->string on arbitrary bytes) *)
+Definition leads_complete (p : list Z) : Prop :=
+  forall i, 0 <= i < Z.of_nat (length p) -> i + utf8_ref_len (nth (Z.to_nat i) p 0) <= Z.of_nat (length p).
+
+Lemma utf8_ref_len_bounds c : 1 <= utf8_ref_len c <= 4.
+Proof.
+  unfold utf8_ref_len. destruct (c <? 128); [lia|]. destruct ((c <? 192) || (247 <? c)); [lia|].
+  destruct (c <? 224); [lia|]. destruct (c <? 240); lia.
+Qed.
+
+Lemma prim_utf8_ref_safe p i : leads_complete p -> 0 <= i < Z.of_nat (length p) -> in_bounds (prim_utf8_ref p i).
+Proof.
+  intros Hw Hi. specialize (Hw i Hi). pose proof (utf8_ref_len_bounds (nth (Z.to_nat i) p 0)).
+  unfold in_bounds, prim_utf8_ref, data_cap. cbn [r_off r_len r_cap]. lia.
+Qed.
+
+(** without that premise the read leaves the string's bytes (incl. the terminator) by up to two
+    bytes: the string "a\xf0" at cursor 1 (candidate F-C01-2) *)
+Lemma prim_utf8_ref_trusts_lead_byte_refuted :
+  exists p i, 0 <= i < Z.of_nat (length p) /\ ~ in_bounds (prim_utf8_ref p i).
+Proof.
+  exists [97; 240], 1. split; [cbn; lia|]. intros [_ [_ H]]. vm_compute in H. apply H. reflexivity.
+Qed.
